@@ -29,6 +29,7 @@ import (
 
 	"com.tuntun.rangers/node/src/common"
 	"com.tuntun.rangers/node/src/core"
+	"com.tuntun.rangers/node/src/executor"
 	"com.tuntun.rangers/node/src/middleware/db"
 	"com.tuntun.rangers/node/src/middleware/types"
 	"com.tuntun.rangers/node/src/service"
@@ -844,6 +845,16 @@ func emitScenario(out *hx.Out, r *hx.Rng, sc *Scenario) {
 	for _, x := range sc.Txs {
 		txs.WriteString(txTokens(r, x, watch))
 	}
+	// every watched address may become a miner account inside the block (apply / change-account) and
+	// then receive a reward or a refund: watch its escrow slots at the pay-out heights as well
+	{
+		nh := service.RewardCalculatorImpl.NextRewardHeight(sc.Height)
+		for a := range watch {
+			wesc[escKey{nh, a}] = true
+			wesc[escKey{sc.Height, a}] = true
+			wesc[escKey{sc.Height + 36000, a}] = true
+		}
+	}
 	wl, el := sortedAddrs(watch), sortedEsc(wesc)
 	ws := "watch"
 	for _, w := range wl {
@@ -1357,7 +1368,14 @@ func genScenario(r *hx.Rng, i int, allowOpaque bool) *Scenario {
 	// miner apply (fresh ids, optional fields absent at random, stakes around the minimum) and
 	// change-account transactions (own / foreign sender, free / occupied / absent target account)
 	for k := r.Pick(0, 0, 1, 1, 2, 3); k > 0 && len(sc.Accounts) > 0 && len(sc.Txs) < 12; k-- {
-		src := sc.Accounts[r.Intn(len(sc.Accounts))].Addr
+		ai := r.Intn(len(sc.Accounts))
+		src := sc.Accounts[ai].Addr
+		if r.Chance(3, 4) { // a stake costs 400 / 2000 RPG: mostly a sender who can afford it (sometimes exactly)
+			sc.Accounts[ai].Bal = e18(int64(r.Pick(400, 2000, 2001, 10000, 10000))).String()
+			if r.Bool() {
+				sc.Accounts[ai].Bal = new(big.Int).Add(bigOf(sc.Accounts[ai].Bal), feeOf(sc)).String()
+			}
+		}
 		typ := byte(r.Pick(0, 0, 1, 1, 2))
 		min := uint64(400)
 		if typ == 1 {
@@ -1848,6 +1866,69 @@ func emitSiteOps(out *hx.Out, r *hx.Rng, i int) {
 				return o + hx.Hex([]byte(msg)) + " " + dump(f, wl, el, nil)
 			})
 		}
+	}
+}
+
+
+// emitContractPreOps: the pure pre-execution functions of the contract executor against the model:
+// executor.IntrinsicGas and the gas limit decodeContractData takes from the payload.
+func emitContractPreOps(out *hx.Out, r *hx.Rng) {
+	sc := &Scenario{Height: 50, Flags: "111111", P026: r.Bool()}
+	applyFlags(sc, 49, false)
+	for k := 0; k < 4; k++ {
+		n := r.Pick(0, 1, 2, 31, 32, 33, 64, 200, 1000)
+		data := r.Bytes(n)
+		switch r.Intn(5) {
+		case 0:
+			for i := range data {
+				data[i] = 0
+			}
+		case 1:
+			for i := range data {
+				if r.Chance(2, 3) {
+					data[i] = 0
+				}
+			}
+		case 2:
+			for i := range data {
+				if data[i] == 0 {
+					data[i] = 1
+				}
+			}
+		}
+		cr := r.Bool()
+		p26 := 0
+		if sc.P026 {
+			p26 = 1
+		}
+		c := 0
+		if cr {
+			c = 1
+		}
+		out.Do(fmt.Sprintf("igas %s %d %d", hx.Hex(data), c, p26), func() string {
+			g, err := executor.IntrinsicGas(data, cr)
+			if err != nil {
+				return "overflow"
+			}
+			return strconv.FormatUint(g, 10)
+		})
+	}
+	fields := []string{"", "0", "1", "6000000", "30000001", "18446744073709551615", "18446744073709551616", "007", "-1", "+1", "1e3", "abc", " 1", "1 ", "00",
+		"99999999999999999999999999", "0x10", "1_000", strconv.Itoa(r.Intn(1 << 30))}
+	for k := 0; k < 3; k++ {
+		f := fields[r.Intn(len(fields))]
+		d, _ := json.Marshal(types.ContractData{GasLimit: f, TransferValue: "0", AbiData: "0x"})
+		p17 := 0
+		if common.IsProposal017() {
+			p17 = 1
+		}
+		out.Do(fmt.Sprintf("dcd %s %d", hx.Hex([]byte(f)), p17), func() string {
+			g, _, _, msg := executor.VerifC18DecodeContractData(string(d))
+			if msg != "" {
+				return "err"
+			}
+			return strconv.FormatUint(g, 10)
+		})
 	}
 }
 
@@ -2788,6 +2869,7 @@ func main() {
 		case i%10 == 8:
 			emitSortOp(out, r)
 			emitSortOp(out, r)
+			emitContractPreOps(out, r)
 		case i%10 == 9:
 			emitMalformed(out, r)
 		case i%10 == 3:
